@@ -87,7 +87,9 @@ func (s *JoiningSource) run() error {
 	if src := s.tryGetSource(s.handler, s.liveSourceFactory); src != nil {
 		s.liveSource = src
 
-		s.OnTerminating(s.liveSource.Shutdown)
+		if !s.shutdownWith(s.liveSource) {
+			return s.Err()
+		}
 		s.liveSource.Run()
 		return s.liveSource.Err()
 	}
@@ -103,17 +105,36 @@ func (s *JoiningSource) run() error {
 			s.cursor.String())
 	}
 
-	s.OnTerminating(fileSrc.Shutdown)
+	if !s.shutdownWith(fileSrc) {
+		return s.Err()
+	}
 	fileSrc.Run()
 
 	if s.liveSource == nil { // got stopped before joining
 		return fileSrc.Err()
 	}
 
-	s.OnTerminating(s.liveSource.Shutdown)
+	if !s.shutdownWith(s.liveSource) {
+		return s.Err()
+	}
 	s.liveSource.Run()
 	return s.liveSource.Err()
 
+}
+
+// shutdownWith registers src to be shut down together with the joining source. When the joining
+// source is already terminating (a Shutdown that started before this call would never see the
+// registration), src is shut down right away and false is returned: src must not be run.
+func (s *JoiningSource) shutdownWith(src Source) bool {
+	err := s.LockedInit(func() error {
+		s.OnTerminating(src.Shutdown)
+		return nil
+	})
+	if err != nil {
+		src.Shutdown(s.Err())
+		return false
+	}
+	return true
 }
 
 func (s *JoiningSource) tryGetSource(handler Handler, factory ForkableSourceFactory) Source {
